@@ -1712,7 +1712,36 @@ impl Property for C15 {
             Ev::DropOp { sel: 65535 },
             Ev::Settle,
         ];
-        let crowded = crowded_cancellations(worker, workers, tier == Tier::Thorough);
+        let mut crowded = crowded_cancellations(worker, workers, tier == Tier::Thorough);
+        // a whole lap of the identifier counter after a cancellation: what an abandoned operation
+        // left behind must not catch the operation that gets its identifier next time round
+        for (k, (kind, between)) in [(OpKind::Pub2, false), (OpKind::Pub2, true), (OpKind::Pub1, false), (OpKind::Sub(0), false)].into_iter().enumerate() {
+            if k % workers != worker % workers.max(1) {
+                continue;
+            }
+            let mut events = vec![Ev::Start { h: 0, kind, settle: false, solo: false }, Ev::Settle];
+            if between {
+                events.push(Ev::In(Inbound::Ack { sel: 0, deco: ok }));
+                events.push(Ev::PollCtx);
+            }
+            events.push(Ev::DropOp { sel: 0 });
+            for _ in 0..3 {
+                events.push(Ev::In(Inbound::Ack { sel: 0, deco: ok }));
+                events.push(Ev::Settle);
+            }
+            events.push(Ev::AdvanceIdentifiers { n: 65_534 });
+            // same identifier again, every kind
+            for kind2 in [kind, OpKind::Pub2, OpKind::Pub1] {
+                events.push(Ev::Start { h: 0, kind: kind2, settle: false, solo: false });
+                events.push(Ev::Settle);
+                for _ in 0..2 {
+                    events.push(Ev::In(Inbound::Ack { sel: 65535, deco: ok }));
+                    events.push(Ev::Settle);
+                }
+                events.push(Ev::AdvanceIdentifiers { n: 65_534 });
+            }
+            crowded.push(Scenario { receive_max: None, max_packet_size: None, id_offset: 0, prologue: 0, events });
+        }
         Box::new(
             sequences(alphabet, tier.pick(5, 7), worker, workers)
                 .map(|events| Scenario { receive_max: Some(1), max_packet_size: None, id_offset: 0, prologue: 0, events })
